@@ -10,15 +10,13 @@ import (
 
 // Denomination indices at the root (two natives per chain, in chain order).
 func stakeOf(chain int) int { return 2 * chain }
-func slashOf(chain int) int { return 2*chain + 1 }
 
 func xfer(src, link, route, sender, denom, amt, rcv, to int) ksim.Op {
 	return ksim.Op{K: OpXfer, A: []int{src, link, route, sender, denom, amt, rcv, to}}
 }
-func syncOp(c int) ksim.Op    { return ksim.Op{K: OpSync, A: []int{c}} }
-func recvOp(i int) ksim.Op    { return ksim.Op{K: OpRecv, A: []int{i, 0}} } // height 0 = the client's latest
-func ackOp(i int) ksim.Op     { return ksim.Op{K: OpAck, A: []int{i, 0}} }
-func timeoutOp(i int) ksim.Op { return ksim.Op{K: OpTimeout, A: []int{i, 0}} }
+func syncOp(c int) ksim.Op { return ksim.Op{K: OpSync, A: []int{c}} }
+func recvOp(i int) ksim.Op { return ksim.Op{K: OpRecv, A: []int{i, 0}} } // height 0 = the client's latest
+func ackOp(i int) ksim.Op  { return ksim.Op{K: OpAck, A: []int{i, 0}} }
 
 // deliver is the honest life cycle of packet i sent from src to dst.
 func deliver(i, src, dst int) []ksim.Op {
@@ -39,6 +37,7 @@ func vouchersOnB() []ksim.Op {
 // Parts builds the explorations shared by C30, C31, C32 and C49; arm selects the reporting oracle.
 func Parts(c *core.C, arm Arm) []ksim.Part {
 	d := core.Pick(c, 0, 2)
+	mc := core.Pick(c, 2, 3) // commits per chain
 	mk := func(name string, depth int, share float64, sc *TW) ksim.Part {
 		sc.Arm = arm
 		sc.Hist = c.Hist
@@ -53,20 +52,20 @@ func Parts(c *core.C, arm Arm) []ksim.Part {
 	parts := []ksim.Part{
 		// A sends stake over each of the three routes with a near timeout: receive vs timeout races, duplicates, two in flight
 		mk("2c/macro/fresh/three-routes", 7+d, 0.15, &TW{Sync: true, SendFrom: []int{0}, Routes: []int{RV1, RAlias, RClient}, Timeouts: []int{ToNext},
-			Bases: []string{Stake}, MaxPkts: 2, MaxCommits: 2}),
+			Bases: []string{Stake}, MaxPkts: 2, MaxCommits: mc}),
 		// error acknowledgements: receiver is a blocked module account, or receive is switched off by the authority; relays signed by a user
 		mk("2c/macro/fresh/receive-failures", 7+d, 0.2, &TW{Sync: true, SendFrom: []int{0}, Routes: []int{RV1, RAlias}, Receivers: []int{RcvUser0, RcvBlocked}, Timeouts: []int{ToFar},
-			Bases: []string{Stake}, MaxPkts: 2, MaxCommits: 2, Toggles: 1, ToggleOn: []int{1}, NoTimeout: true, Relayer: 1}),
+			Bases: []string{Stake}, MaxPkts: 2, MaxCommits: mc, Toggles: 1, ToggleOn: []int{1}, NoTimeout: true, Relayer: 1}),
 		// MsgTransfer's "entire balance", v1 timeout by height and by timestamp, MsgTransfer{use_aliasing}, the slashed native a/b
 		mk("2c/macro/fresh/amounts-timeouts-slash-denom", 6+d, 0.2, &TW{Sync: true, SendFrom: []int{0}, Routes: []int{RV1, RMsgAlias}, Amounts: []int{1}, Timeouts: []int{ToNext, ToNextTime},
-			MaxPkts: 2, MaxCommits: 2, NoAck: true}),
+			MaxPkts: 2, MaxCommits: mc, NoAck: true}),
 		// B holds vouchers of A's stake (channel path and client path) and sends them back over every route, also across paths
 		mk("2c/macro/vouchers-return", 6+d, 0.45, &TW{Sync: true, Prefix: vouchersOnB(), SkipPrefix: true, SendFrom: []int{1}, Kind: 2, Routes: []int{RV1, RAlias, RClient}, Amounts: []int{0, 1},
-			Timeouts: []int{ToNext}, MaxPkts: 2, MaxCommits: 2, Toggles: 1, ToggleOn: []int{0}, Relayer: 1}),
+			Timeouts: []int{ToNext}, MaxPkts: 2, MaxCommits: mc, Toggles: 1, ToggleOn: []int{0}, Relayer: 1}),
 		// both chains send their native stake at the same time over the same channel / client pair
 		mk("2c/macro/both-directions", 6+d, 0.3, &TW{Sync: true, Routes: []int{RV1, RMsgClient}, Timeouts: []int{ToNext}, Bases: []string{Stake}, Kind: 1, MaxPkts: 2, MaxCommits: 1}),
 		// primitive commit / update steps, relays with any of the three newest consensus heights
-		mk("2c/micro/primitive-stale-proofs", 7+d, 0.5, &TW{Stale: true, SendFrom: []int{0}, Routes: []int{RV1, RClient}, Timeouts: []int{ToNext}, Bases: []string{Stake}, MaxPkts: 1, MaxCommits: 2}),
+		mk("2c/micro/primitive-stale-proofs", 7+d, 0.5, &TW{Stale: true, SendFrom: []int{0}, Routes: []int{RV1, RClient}, Timeouts: []int{ToNext}, Bases: []string{Stake}, MaxPkts: 1, MaxCommits: mc}),
 		// MsgSendPacket whose signer is not the payload's sender, next to the matching sends of both users
 		mk("2c/macro/signer-mismatch", 4+d, 0, &TW{Sync: true, Mismatch: true, Senders: []int{0, 1}, SendFrom: []int{0}, Routes: []int{RAlias, RClient, RMsgAlias}, Receivers: []int{RcvUser1}, Timeouts: []int{ToFar},
 			MaxPkts: 2, MaxCommits: 1, Relayer: 1}),
@@ -75,15 +74,15 @@ func Parts(c *core.C, arm Arm) []ksim.Part {
 		all := []int{RV1, RAlias, RClient, RMsgAlias, RMsgClient}
 		parts = append(parts,
 			// one transfer at a time, the full product of the alphabet (5 routes x 2 senders x denoms x 2 amounts x 3 receivers x 3 timeouts), complete life cycle of each
-			mk("2c/macro/single-transfer/full-product/natives", 6, 0, &TW{Sync: true, SendFrom: []int{0}, Routes: all, Senders: []int{0, 1}, Amounts: []int{0, 1}, Receivers: []int{RcvUser0, RcvUser1, RcvBlocked},
+			mk("2c/macro/single-transfer/full-product/natives", 7, 0, &TW{Sync: true, SendFrom: []int{0}, Routes: all, Senders: []int{0, 1}, Amounts: []int{0, 1}, Receivers: []int{RcvUser0, RcvUser1, RcvBlocked},
 				Timeouts: []int{ToFar, ToNext, ToNextTime}, MaxPkts: 1, MaxCommits: 2, Toggles: 1, ToggleOn: []int{1}}),
-			mk("2c/macro/single-transfer/full-product/vouchers", 6, 0, &TW{Sync: true, Prefix: vouchersOnB(), SkipPrefix: true, SendFrom: []int{1}, Kind: 2, Routes: all, Amounts: []int{0, 1}, Receivers: []int{RcvUser0, RcvUser1, RcvBlocked},
+			mk("2c/macro/single-transfer/full-product/vouchers", 7, 0, &TW{Sync: true, Prefix: vouchersOnB(), SkipPrefix: true, SendFrom: []int{1}, Kind: 2, Routes: all, Amounts: []int{0, 1}, Receivers: []int{RcvUser0, RcvUser1, RcvBlocked},
 				Timeouts: []int{ToFar, ToNext, ToNextTime}, MaxPkts: 1, MaxCommits: 2, Toggles: 1, ToggleOn: []int{0}, Relayer: 1}),
 			// three chains in a line: B holds A's stake as voucher and moves it on to C or back to A, C returns it
-			mk("3c/macro/line-forward-and-back", 8, 0, &TW{NChains: 3, Sync: true, Prefix: vouchersOnB()[:5], SkipPrefix: true, SendFrom: []int{1, 2}, Routes: []int{RV1, RAlias}, Amounts: []int{1},
+			mk("3c/macro/line-forward-and-back", 10, 0, &TW{NChains: 3, Sync: true, Prefix: vouchersOnB()[:5], SkipPrefix: true, SendFrom: []int{1, 2}, Routes: []int{RV1, RAlias}, Amounts: []int{1},
 				Timeouts: []int{ToNext}, Bases: []string{Stake}, Kind: 2, MaxPkts: 2, MaxCommits: 2}),
 			// three chains from scratch: A -> B -> C with far timeouts, natives and vouchers, acknowledgements only
-			mk("3c/macro/fresh-two-hops", 9, 0, &TW{NChains: 3, Sync: true, SendFrom: []int{0, 1}, Routes: []int{RV1}, Amounts: []int{1}, Timeouts: []int{ToFar}, Bases: []string{Stake},
+			mk("3c/macro/fresh-two-hops", 10, 0, &TW{NChains: 3, Sync: true, SendFrom: []int{0, 1}, Routes: []int{RV1}, Amounts: []int{1}, Timeouts: []int{ToFar}, Bases: []string{Stake},
 				MaxPkts: 2, MaxCommits: 2, NoTimeout: true}),
 		)
 	}
